@@ -808,6 +808,12 @@ def rule_child_pipes(ctx):
                 if feeds:
                     before_drain = not any(b.dominates(dr, s) for dr in drains)
                     r.check(not before_drain, anchor, "feeder-joined-before-drain", "the thread feeding the child's stdin is not joined before stdout is drained", "the function waits (join) for the thread that writes the instance to the child's stdin before it drains the child's piped stdout: a child that prints more than a pipe buffer before consuming its input blocks, and so do the feeder and the caller", s.loc())
+        # a third pipe: stderr piped but never read blocks a child that writes more than a pipe buffer of diagnostics
+        piped_err = [x for x in b.calls() if callee_is(callee_of(x), "std::process::Command::stderr") and any(o.kind == "call" and callee_is(o.data, "std::process::Stdio::piped") for o in origins(b, x.node["args"][1], transparent=()))]
+        if piped_err:
+            errs = [l for l, d in enumerate(b.locals) if d["ty"] == "std::process::ChildStderr" and b.defs.get(l)]
+            drained_err = any(callee_matches(callee_of(x), DRAIN) and x.node["args"] and any(derives_from_local(b, x.node["args"][0], l, through_calls=True) for l in errs) and b.dominates(x, w) for x in b.calls())
+            r.check(drained_err, anchor, "undrained=ChildStderr", "piped stderr is drained before wait", "the child's stderr is piped but never read before Child::wait: a solver that prints more than a pipe buffer of diagnostics blocks forever", piped_err[0].loc())
         # stdin: every ChildStdin value owned here must have been moved away (or dropped) before wait
         for l in ins:
             moved = False
@@ -1079,6 +1085,11 @@ def rule_clause_store(ctx):
                     fr = self_fields_read(pb, pop)
                     r.check(store in fr, sb.id + "|instance", "store-not-used", "the second part is the whole clause store", "the DIMACS instance is not built from the clause store (second part reads %s)" % sorted(fr), psite.loc())
                     continue
+                if role == "assumptions":
+                    # one unit clause per assumption: the header counts assumptions.len(), so nothing may be dropped or merged on the way
+                    _, pcalls, _ = data_deps(pb, pop)
+                    dropping = sorted({callee_decl(callee_of(c)).rsplit("::", 1)[-1] for c in pcalls if re.search(r"Iterator::(filter|filter_map|skip|skip_while|take|take_while|step_by|dedup\w*|flat_map|flatten|peekable|chain|zip)$|Vec::(dedup\w*|retain|truncate|remove|swap_remove|pop)$|HashSet|BTreeSet|itertools", callee_decl(callee_of(c)) or "")})
+                    r.check(not dropping, sb.id + "|assumption-count", "assumption-units-filtered:%s" % dropping, "every assumption gives exactly one unit clause (the header counts assumptions.len())", "the unit clauses of the assumptions pass through %s: their number can differ from assumptions.len(), which the header announces" % dropping, psite.loc())
                 outlang.clear_cache()
                 try:
                     lang = outlang.string_lang(prog, pb, pop, psite)
